@@ -90,7 +90,260 @@ fn changed(before: &[u64], after: &[u64]) -> String {
     }
 }
 
+
+// ---------------------------------------------------------------------------------------------
+// views whose source is changed after construction
+// ---------------------------------------------------------------------------------------------
+
+/// An object from which `source_ref_mut()` (repeated) reaches the `Matrix` at the bottom.
+trait LiveNode: MatrixMut<u64> {
+    fn matrix_mut(&mut self) -> &mut Matrix<u64>;
+    fn matrix_ref(&self) -> &Matrix<u64>;
+    /// `source_ref()` k times, then the checked getter (`None`: no such inner object)
+    fn get_at(&self, k: usize, r: usize, c: usize) -> Option<Option<u64>>;
+}
+
+impl LiveNode for Matrix<u64> {
+    fn matrix_mut(&mut self) -> &mut Matrix<u64> {
+        self
+    }
+    fn matrix_ref(&self) -> &Matrix<u64> {
+        self
+    }
+    fn get_at(&self, k: usize, r: usize, c: usize) -> Option<Option<u64>> {
+        if k == 0 { Some(MatrixRef::try_get_reference(self, r, c).copied()) } else { None }
+    }
+}
+
+impl LiveNode for &'static mut Matrix<u64> {
+    fn matrix_mut(&mut self) -> &mut Matrix<u64> {
+        &mut **self
+    }
+    fn matrix_ref(&self) -> &Matrix<u64> {
+        &**self
+    }
+    fn get_at(&self, k: usize, r: usize, c: usize) -> Option<Option<u64>> {
+        if k == 0 { Some(MatrixRef::try_get_reference(self, r, c).copied()) } else { None }
+    }
+}
+
+impl LiveNode for Box<Matrix<u64>> {
+    fn matrix_mut(&mut self) -> &mut Matrix<u64> {
+        &mut **self
+    }
+    fn matrix_ref(&self) -> &Matrix<u64> {
+        &**self
+    }
+    fn get_at(&self, k: usize, r: usize, c: usize) -> Option<Option<u64>> {
+        if k == 0 { Some(MatrixRef::try_get_reference(self, r, c).copied()) } else { None }
+    }
+}
+
+impl<S: LiveNode> LiveNode for MatrixReverse<u64, S> {
+    fn matrix_mut(&mut self) -> &mut Matrix<u64> {
+        self.source_ref_mut().matrix_mut()
+    }
+    fn matrix_ref(&self) -> &Matrix<u64> {
+        self.source_ref().matrix_ref()
+    }
+    fn get_at(&self, k: usize, r: usize, c: usize) -> Option<Option<u64>> {
+        if k == 0 {
+            Some(self.try_get_reference(r, c).copied())
+        } else {
+            self.source_ref().get_at(k - 1, r, c)
+        }
+    }
+}
+
+type R1<S> = MatrixReverse<u64, S>;
+
+/// zero to three `MatrixReverse`s around a source of type `S`
+enum Chain<S> {
+    D0(S),
+    D1(R1<S>),
+    D2(R1<R1<S>>),
+    D3(R1<R1<R1<S>>>),
+}
+
+impl<S: LiveNode> Chain<S> {
+    fn wrap(self, reverse: Reverse) -> Chain<S> {
+        match self {
+            Chain::D0(s) => Chain::D1(MatrixReverse::from(s, reverse)),
+            Chain::D1(s) => Chain::D2(MatrixReverse::from(s, reverse)),
+            Chain::D2(s) => Chain::D3(MatrixReverse::from(s, reverse)),
+            Chain::D3(_) => panic!("unsupported depth"),
+        }
+    }
+    fn unwrap(self) -> Chain<S> {
+        match self {
+            Chain::D0(_) => panic!("nothing to unwrap"),
+            Chain::D1(s) => Chain::D0(s.source()),
+            Chain::D2(s) => Chain::D1(s.source()),
+            Chain::D3(s) => Chain::D2(s.source()),
+        }
+    }
+}
+
+enum AnyLive {
+    Owned(Chain<Matrix<u64>>),
+    MutRef(Chain<&'static mut Matrix<u64>>),
+    Boxed(Chain<Box<Matrix<u64>>>),
+}
+
+macro_rules! with_chain {
+    ($chain:expr, $n:ident => $body:expr) => {
+        match $chain {
+            Chain::D0($n) => $body,
+            Chain::D1($n) => $body,
+            Chain::D2($n) => $body,
+            Chain::D3($n) => $body,
+        }
+    };
+}
+
+macro_rules! with_node {
+    ($any:expr, $n:ident => $body:expr) => {
+        match $any {
+            AnyLive::Owned(ch) => with_chain!(ch, $n => $body),
+            AnyLive::MutRef(ch) => with_chain!(ch, $n => $body),
+            AnyLive::Boxed(ch) => with_chain!(ch, $n => $body),
+        }
+    };
+}
+
+impl AnyLive {
+    fn map_chain(self, wrap: Option<Reverse>) -> AnyLive {
+        match (self, wrap) {
+            (AnyLive::Owned(c), Some(r)) => AnyLive::Owned(c.wrap(r)),
+            (AnyLive::MutRef(c), Some(r)) => AnyLive::MutRef(c.wrap(r)),
+            (AnyLive::Boxed(c), Some(r)) => AnyLive::Boxed(c.wrap(r)),
+            (AnyLive::Owned(c), None) => AnyLive::Owned(c.unwrap()),
+            (AnyLive::MutRef(c), None) => AnyLive::MutRef(c.unwrap()),
+            (AnyLive::Boxed(c), None) => AnyLive::Boxed(c.unwrap()),
+        }
+    }
+}
+
+fn live_size<N: LiveNode>(n: &N) -> String {
+    format!("size={}x{}", n.view_rows(), n.view_columns())
+}
+
+fn live_step<N: LiveNode>(n: &mut N, toks: &[&str], via: &str) -> String {
+    match toks[0] {
+        "src" => {
+            // `source_ref_mut()` … down to the matrix (optionally entering through a MatrixView)
+            let r = if via == "view" {
+                let mut view = MatrixView::from(&mut *n);
+                crate::c11::apply(view.source_ref_mut().matrix_mut(), &toks[1..])
+            } else {
+                crate::c11::apply(n.matrix_mut(), &toks[1..])
+            };
+            match r {
+                None => "bad-op".into(),
+                Some(Ok(())) => format!("ok {}", live_size(n)),
+                Some(Err(k)) => format!("{} {}", panic_str(k), live_size(n)),
+            }
+        }
+        "lget" | "luget" => {
+            let (r, c): (usize, usize) = (toks[1].parse().unwrap(), toks[2].parse().unwrap());
+            let unchecked = toks[0] == "luget";
+            let res = catch(|| {
+                if unchecked {
+                    Some(unsafe {
+                        if via == "unchecked_mut" {
+                            *n.get_reference_unchecked_mut(r, c)
+                        } else {
+                            *n.get_reference_unchecked(r, c)
+                        }
+                    })
+                } else {
+                    match via {
+                        "mut" => n.try_get_reference_mut(r, c).map(|x| *x),
+                        "view" => MatrixView::from(&*n).try_get_reference(r, c).copied(),
+                        "view_mut" => MatrixView::from(&mut *n).try_get_reference_mut(r, c).map(|x| *x),
+                        _ => n.try_get_reference(r, c).copied(),
+                    }
+                }
+            });
+            answer(res, |o| if unchecked { o.unwrap().to_string() } else { show_opt(o) })
+        }
+        "lscan" => {
+            let (rows, cols) = (n.view_rows(), n.view_columns());
+            let res = catch(|| -> Vec<u64> {
+                let view = MatrixView::from(&*n);
+                match via {
+                    "reference" => view.row_major_reference_iter().copied().collect(),
+                    "index" => {
+                        let mut out = vec![];
+                        for r in 0..rows {
+                            for c in 0..cols {
+                                out.push(view.get(r, c));
+                            }
+                        }
+                        out
+                    }
+                    _ => view.row_major_iter().collect(),
+                }
+            });
+            answer(res, |v| format!("{}x{}:{}", rows, cols, show_ids(&v)))
+        }
+        "lset" => {
+            let (r, c): (usize, usize) = (toks[1].parse().unwrap(), toks[2].parse().unwrap());
+            let before: Vec<u64> = n.matrix_ref().row_major_iter().collect();
+            let res = catch(|| match via {
+                "unchecked" => unsafe {
+                    // only emitted for indexes inside the view
+                    *n.get_reference_unchecked_mut(r, c) = SENTINEL;
+                },
+                "view" => {
+                    if let Some(x) = MatrixView::from(&mut *n).try_get_reference_mut(r, c) {
+                        *x = SENTINEL;
+                    }
+                }
+                _ => {
+                    if let Some(x) = n.try_get_reference_mut(r, c) {
+                        *x = SENTINEL;
+                    }
+                }
+            });
+            let after: Vec<u64> = n.matrix_ref().row_major_iter().collect();
+            // put the old elements back: the model does not record this write
+            let cols = n.matrix_ref().columns();
+            for (i, (b, a)) in before.iter().zip(after.iter()).enumerate() {
+                if b != a {
+                    n.matrix_mut().set(i / cols, i % cols, *b);
+                }
+            }
+            answer(res, |_| changed(&before, &after))
+        }
+        "srcget" => {
+            let k: usize = toks[1].parse().unwrap();
+            let (r, c): (usize, usize) = (toks[2].parse().unwrap(), toks[3].parse().unwrap());
+            match catch(|| n.get_at(k, r, c)) {
+                Ok(Some(o)) => show_opt(o),
+                Ok(None) => "bad-op".into(),
+                Err(k) => panic_str(k),
+            }
+        }
+        _ => "bad-op".into(),
+    }
+}
+
+fn new_live(rows: usize, cols: usize, flags: &[(bool, bool)], src: &str) -> AnyLive {
+    let m = Matrix::from_flat_row_major((rows, cols), (1..=(rows * cols) as u64).collect());
+    let mut any = match src {
+        "mut" => AnyLive::MutRef(Chain::D0(Box::leak(Box::new(m)))),
+        "boxed" => AnyLive::Boxed(Chain::D0(Box::new(m))),
+        _ => AnyLive::Owned(Chain::D0(m)),
+    };
+    for (r, c) in flags {
+        any = any.map_chain(Some(Reverse { rows: *r, columns: *c }));
+    }
+    any
+}
+
 pub struct Runner {
+    live: Option<AnyLive>,
     leaf: (usize, usize),
     ops: Vec<Op>,
     view: Option<MDyn>,
@@ -110,6 +363,7 @@ fn answer<T>(r: Result<T, PanicKind>, f: impl FnOnce(T) -> String) -> String {
 impl Runner {
     pub fn new() -> Runner {
         Runner {
+            live: None,
             leaf: (0, 0),
             ops: vec![],
             view: None,
@@ -165,7 +419,23 @@ impl Runner {
             self.mapped = false;
             self.drop_parts();
             self.partition_args = None;
+            self.live = None;
             return match toks[1] {
+                "live" => {
+                    let (r, c): (usize, usize) = (toks[2].parse().unwrap(), toks[3].parse().unwrap());
+                    let flags: Vec<(bool, bool)> = split_comma(toks[4])
+                        .iter()
+                        .map(|p| {
+                            let (a, b) = p.split_once(':').unwrap();
+                            (a == "1", b == "1")
+                        })
+                        .collect();
+                    let src = opt_arg("src", toks).unwrap_or("owned");
+                    let mut any = new_live(r, c, &flags, src);
+                    let s = with_node!(&mut any, n => live_size(n));
+                    self.live = Some(any);
+                    format!("ok {}", s)
+                }
                 "matrix" => {
                     let (r, c): (usize, usize) = (toks[2].parse().unwrap(), toks[3].parse().unwrap());
                     self.leaf = (r, c);
@@ -187,6 +457,24 @@ impl Runner {
             };
         }
         match toks[0] {
+            "src" | "lget" | "luget" | "lscan" | "lset" | "srcget" => match self.live.as_mut() {
+                None => "no-view".into(),
+                Some(any) => with_node!(any, n => live_step(n, toks, &via)),
+            },
+            "wrap" | "unwrap" => match self.live.take() {
+                None => "no-view".into(),
+                Some(any) => {
+                    let wrap = if toks[0] == "wrap" {
+                        Some(Reverse { rows: toks[1] == "1", columns: toks[2] == "1" })
+                    } else {
+                        None
+                    };
+                    let mut any = any.map_chain(wrap);
+                    let s = with_node!(&mut any, n => live_size(n));
+                    self.live = Some(any);
+                    format!("ok {}", s)
+                }
+            },
             "mrange" | "mreverse" | "roundtrip" => {
                 let op = match toks[0] {
                     "mrange" => {
@@ -741,7 +1029,149 @@ fn gen_partitions(g: &mut Gen) {
     }
 }
 
+
+/// a source operation that is (mostly) valid at the given size; returns the line and the size after
+fn live_source_op(g: &mut Gen, rows: usize, cols: usize, counter: &mut u64) -> (String, usize, usize) {
+    let mut fresh = |n: usize| -> Vec<u64> {
+        (0..n)
+            .map(|_| {
+                *counter += 1;
+                *counter
+            })
+            .collect()
+    };
+    let show = |v: &[u64]| v.iter().map(|x| x.to_string()).collect::<Vec<_>>().join(",");
+    loop {
+        match g.rng.below(12) {
+            0 | 1 => {
+                let p = g.rng.below(rows + 1);
+                return (format!("insert_row {} {}", p, fresh(1)[0]), rows + 1, cols);
+            }
+            2 => {
+                let p = g.rng.below(rows + 1);
+                return (format!("insert_row_with {} {}", p, show(&fresh(cols))), rows + 1, cols);
+            }
+            3 | 4 => {
+                let p = g.rng.below(cols + 1);
+                return (format!("insert_column {} {}", p, fresh(1)[0]), rows, cols + 1);
+            }
+            5 => {
+                let p = g.rng.below(cols + 1);
+                return (format!("insert_column_with {} {}", p, show(&fresh(rows))), rows, cols + 1);
+            }
+            6 if rows > 1 => {
+                let p = g.rng.below(rows);
+                return (format!("remove_row {}", p), rows - 1, cols);
+            }
+            7 if cols > 1 => {
+                let p = g.rng.below(cols);
+                return (format!("remove_column {}", p), rows, cols - 1);
+            }
+            8 if rows > 1 => {
+                let k = g.rng.below(rows);
+                return (format!("retain_mut rows=not(single({})) cols=all", k), rows - 1, cols);
+            }
+            9 if cols > 2 => {
+                return (format!("retain_mut rows=all cols=range(1,{})", cols), rows, cols - 1);
+            }
+            10 => {
+                let (r, c) = (g.rng.below(rows), g.rng.below(cols));
+                return (format!("set {} {} {}", r, c, fresh(1)[0]), rows, cols);
+            }
+            11 => {
+                // a rejected operation: the matrix (and so the view) must stay as it is
+                return match g.rng.below(3) {
+                    0 => (format!("remove_row {}", rows + 1), rows, cols),
+                    1 => (format!("insert_column {} 7", cols + 2), rows, cols),
+                    _ => ("transpose_mut".to_string(), cols, rows),
+                };
+            }
+            _ => continue,
+        }
+    }
+}
+
+/// every question about the live view of the given size
+fn gen_live_queries(g: &mut Gen, rows: usize, cols: usize, depth: usize) {
+    let via = *g.rng.pick(&["row_major", "reference", "index"]);
+    g.op(format!("lscan via={}", via));
+    for r in ring(rows) {
+        for c in ring(cols) {
+            let inside = r < rows && c < cols;
+            if inside || g.rng.chance(1, 2) {
+                g.count(if inside { "live.lget.in" } else { "live.lget.out" });
+                let via = *g.rng.pick(&MGET_VIAS);
+                g.op(format!("lget {} {} via={}", r, c, via));
+            }
+        }
+    }
+    for r in 0..rows {
+        for c in 0..cols {
+            let via = if g.rng.chance(1, 2) { "unchecked" } else { "unchecked_mut" };
+            g.op(format!("luget {} {} via={}", r, c, via));
+            g.count("live.luget");
+            if g.rng.chance(1, 3) {
+                let via = *g.rng.pick(&["mut", "view", "unchecked"]);
+                g.op(format!("lset {} {} via={}", r, c, via));
+                g.count("live.lset");
+            }
+        }
+    }
+    let k = g.rng.below(depth + 1);
+    let (sr, sc) = (g.rng.below(rows), g.rng.below(cols));
+    g.op(format!("srcget {} {} {}", k, sr, sc));
+    g.count("live.srcget");
+}
+
+fn gen_live(g: &mut Gen) {
+    let rounds = if g.thorough { 4000 } else { 260 };
+    let mut counter: u64 = 100;
+    for round in 0..rounds {
+        let (mut rows, mut cols) = (g.rng.range(1, 3), g.rng.range(1, 4));
+        let mut depth = g.rng.range(1, 3);
+        let flags: Vec<String> =
+            (0..depth).map(|_| format!("{}:{}", g.rng.below(2), g.rng.below(2))).collect();
+        let src = ["owned", "mut", "boxed"][round % 3];
+        g.op(format!("@ live {} {} {} src={}", rows, cols, flags.join(","), src));
+        g.count(&format!("live.depth={}", depth));
+        g.count(&format!("live.src={}", src));
+        if round % 4 == 0 {
+            gen_live_queries(g, rows, cols, depth);
+        }
+        let steps = g.rng.range(1, 4);
+        for _ in 0..steps {
+            match g.rng.below(8) {
+                0 if depth < 3 => {
+                    let (a, b) = (g.rng.below(2), g.rng.below(2));
+                    g.op(format!("wrap {} {}", a, b));
+                    depth += 1;
+                    g.count("live.wrap");
+                }
+                1 if depth > 1 => {
+                    g.op("unwrap".to_string());
+                    depth -= 1;
+                    g.count("live.unwrap");
+                }
+                _ => {
+                    let (line, r2, c2) = live_source_op(g, rows, cols, &mut counter);
+                    let via = if g.rng.chance(1, 3) { "view" } else { "direct" };
+                    let name = line.split(' ').next().unwrap().to_string();
+                    g.op(format!("src {} via={}", line, via));
+                    g.count(&format!("live.src_op.{}", name));
+                    if (r2, c2) != (rows, cols) {
+                        g.count("live.source_resized");
+                    }
+                    rows = r2;
+                    cols = c2;
+                }
+            }
+            gen_live_queries(g, rows, cols, depth);
+        }
+    }
+}
+
 pub fn gen(g: &mut Gen) {
+    gen_live(g);
     gen_ranges(g);
     gen_nested(g);
     gen_partitions(g);
